@@ -374,5 +374,9 @@ theorem tie_Mutex_GuardSticky : Extracted.Kernels.Mutex_GuardSticky = Skeletons.
 theorem tie_Mutex_Lock : Extracted.Kernels.Mutex_Lock = Skeletons.Mutex_Lock := rfl
 theorem tie_Mutex_Unlock : Extracted.Kernels.Mutex_Unlock = Skeletons.Mutex_Unlock := rfl
 theorem tie_Mutex_UnlockOn : Extracted.Kernels.Mutex_UnlockOn = Skeletons.Mutex_UnlockOn := rfl
+/-- the YACLIB_TRANSFER / YACLIB_RESUME / YACLIB_SUSPEND macro block of coro.hpp (symmetric and non-symmetric branch) that
+    `AwaitUnlock` / `AwaitUnlockOn` expand: `grant … inl = true` is "resume the next holder, the unlocker stays suspended" -/
+theorem tie_coro_transfer_macros :
+    Extracted.Kernels.CoMutexSrc_coro_transfer_macros = Skeletons.CoMutexSrc_coro_transfer_macros := rfl
 
 end Yaclib.Props.C14.Tie
